@@ -135,7 +135,7 @@ def _unformat(P, txt, driver_pct):
         return "%s: %s" % (type(ex).__name__, ex)
 
 
-def dotted_clauses(P, label, driver_pct, comps):
+def dotted_clauses(P, label, driver_pct, comps, table=None):
     out = []
     cls = type(P).__name__
     want = list(comps)
@@ -147,8 +147,7 @@ def dotted_clauses(P, label, driver_pct, comps):
     if len(comps) == 2:
         sch, name = comps
         if not (label.startswith("mssql") and re.search(r"[.\[\]]", sch)):
-            t = Table(name, MetaData(), schema=sch)
-            ft = P.format_table(t)
+            ft = P.format_table(table if table is not None else Table(name, MetaData(), schema=sch))
             exp = P.quote_schema(sch) + "." + P.quote(name)
             got = _unformat(P, ft, driver_pct)
             if ft != exp or got != want:
@@ -304,23 +303,29 @@ def _work(task):
             res["nontrivial"] += escaped
             res["bare"] += bare
             fails.extend(f)
-            if escaped and not res["samples"] and len(s) > 2:
-                res["samples"].append(dict(preparer=label, name=s, quoted=P.quote_identifier(s), quote=P.quote(s)))
+            if escaped and len(s) > 2 and len(res["samples"]) < 2 and res["nontrivial"] % 97 == 5 + list(PREPARERS).index(label):
+                res["samples"].append(dict(preparer=label, name=s, escaped=P._escape_identifier(s), quoted=P.quote_identifier(s),
+                                           quote=P.quote(s), requires_quotes=P._requires_quotes(s)))
     elif kind == "dotted":
-        _, label, firsts, seconds, triples = task
-        P = PREPARERS[label][0]()
+        _, firsts, seconds, triples = task
+        preps = [(label, f(), pct) for label, (f, pct) in PREPARERS.items()]
         for a in firsts:
             for b in seconds:
-                fails.extend(dotted_clauses(P, label, PREPARERS[label][1], (a, b)))
-                res["evals"] += 1
-                res["nontrivial"] += (P._escape_identifier(a) != a or P._escape_identifier(b) != b or "." in a or "." in b)
+                table = Table(b, MetaData(), schema=a)  # one real Table per pair, formatted by every preparer
+                for label, P, pct in preps:
+                    fails.extend(dotted_clauses(P, label, pct, (a, b), table))
+                    res["evals"] += 1
+                    res["nontrivial"] += (P._escape_identifier(a) != a or P._escape_identifier(b) != b or "." in a or "." in b)
         for comps in triples:
-            fails.extend(dotted_clauses(P, label, PREPARERS[label][1], comps))
-            res["evals"] += 1
-            res["nontrivial"] += any(P._escape_identifier(c) != c or c == "." for c in comps)
+            for label, P, pct in preps:
+                fails.extend(dotted_clauses(P, label, pct, comps))
+                res["evals"] += 1
+                res["nontrivial"] += any(P._escape_identifier(c) != c or c == "." for c in comps)
         if firsts:
-            res["samples"].append(dict(preparer=label, components=[firsts[-1], seconds[-1]],
-                                       dotted=".".join(P.quote_identifier(c) for c in (firsts[-1], seconds[-1]))))
+            label, P, pct = preps[len(firsts[0]) * 5 % len(preps)]
+            comps = (firsts[len(firsts) // 2], seconds[(len(firsts) * 7) % len(seconds)])
+            txt = ".".join(P.quote_identifier(c) for c in comps)
+            res["samples"].append(dict(preparer=label, components=list(comps), dotted=txt, unformat=_unformat(P, txt, pct)))
     elif kind in ("sqlite", "reflect"):
         eng = _engine()
         P = _SQLITE.identifier_preparer
@@ -348,6 +353,13 @@ def _work(task):
     return res
 
 
+def _spread(items, n):
+    """n items taken at equal strides (samples from different preparers / parts, not the first n)"""
+    if len(items) <= n:
+        return items
+    return [items[i * len(items) // n] for i in range(n)]
+
+
 def run(run, tier, seed, args):
     import sqlalchemy
     quick = tier == "quick"
@@ -363,15 +375,16 @@ def run(run, tier, seed, args):
     for label in PREPARERS:
         for c in S.chunks(names, per_label):
             tasks.append(("names", label, c))
-        for i, c in enumerate(S.chunks(firsts, per_label)):
-            tasks.append(("dotted", label, c, seconds, triples if i == 0 else []))
+    for i, c in enumerate(S.chunks(firsts, nj * 2)):
+        tasks.append(("dotted", c, seconds, triples if i == 0 else []))
     for c in S.chunks(S.strings(ALPHABET, n_sqlite, 1), nj * 2):
         tasks.append(("sqlite", c))
     for c in S.chunks(S.strings(ALPHABET, n_reflect, 1), nj):
         tasks.append(("reflect", c))
     for c in S.chunks(words, nj):
         tasks.append(("words", c))
-    tasks.sort(key=lambda t: -len(t[2] if t[0] in ("names", "dotted") else t[1]))
+    cost = {"names": 1, "dotted": 12 * len(seconds) * 4, "sqlite": 700, "reflect": 1200, "words": 900}
+    tasks.sort(key=lambda t: -cost[t[0]] * len(t[2] if t[0] == "names" else t[1]))
     res = S.pmap(_work, tasks)
     F = S.Findings(run)
     F.extend(sorted((f for r in res for f in r["fails"]),
@@ -400,7 +413,8 @@ def run(run, tier, seed, args):
         words_sqlite_refuses_bare=len(unusable),
         words_refused_bare_and_not_quoted_by_sqlalchemy=[w for w in unusable if not P._requires_quotes(w)],
         failures_not_kept=dropped,
-        samples=[s for r in res for s in r["samples"]][:10],
+        samples=_spread([s for r in res for s in r["samples"]], 12)
+        + [dict(word=w, sqlite_refuses_bare=True, requires_quotes=P._requires_quotes(w)) for w in unusable[:2] + unusable[-2:]],
         exhaustive=True,
         scope="alphabet %r; names of length 1..%d x %d preparers; dotted pairs (1..%d) x (1..2) and 1-character triples x %d "
               "preparers; SQLite execution for names of length 1..%d, reflection 1..%d; %d catalogue words on sqlite3 %s"
